@@ -152,6 +152,38 @@ class World:
             self.carried.clear()
         return rc
 
+    def op_commit_index_only(self):
+        """an agent edit is staged, then a person changes the work tree again WITHOUT staging (types a line right below
+        the agent's and stages, then takes it out again; or deletes / inserts somewhere), and `git commit` takes the
+        index only: the note must describe the committed content, not the work tree"""
+        r = self.r
+        path = self.op_edit(actor=r.pick(["s1", "s2"]), kinds=("ins",))
+        ls = self.lines(path) or []
+        ai_idx = [i for i, t in enumerate(ls) if self.author_of.get(t) in ("s1", "s2")]
+        shape = r.pick(["typed_then_removed", "delete_below", "insert_above", "delete_above"])
+        if shape == "typed_then_removed" and ai_idx:
+            k = ai_idx[-1] + 1
+            x = self.fresh("H")
+            staged = ls[:k] + [x] + ls[k:]
+            self.write(path, "".join(l + "\n" for l in staged))
+            self.realgit("add", "--", path)
+            self.write(path, "".join(l + "\n" for l in ls))           # X removed again, not staged
+        else:
+            self.realgit("add", "--", path)
+            cur = list(ls)
+            if shape in ("delete_below", "typed_then_removed") and ai_idx and ai_idx[-1] + 1 < len(cur):
+                del cur[ai_idx[-1] + 1]
+            elif shape == "delete_above" and ai_idx and ai_idx[0] > 0:
+                del cur[ai_idx[0] - 1]
+            else:
+                cur.insert(ai_idx[0] if ai_idx else 0, self.fresh("H"))
+            self.write(path, "".join(l + "\n" for l in cur))
+        rc, _, _ = self.git("commit", "-q", "-m", f"index{len(self.trace)}")
+        if rc == 0:
+            self.pending_ai.discard(path)
+        self.trace.append(("commit_index_only", rc, path, shape))
+        return rc
+
     def op_commit_partial(self):
         rc, out, _ = self.sim.realgit("status", "--porcelain", "-z")
         changed = [e[3:] for e in out.split("\0") if e]
